@@ -25,6 +25,7 @@ mod verboseiter;
 mod text;
 mod keytext;
 mod translate;
+mod translate_mp;
 mod tree;
 
 fn main() {
@@ -56,6 +57,7 @@ fn main() {
         "ext" => ext::run(&args[2..]),
         "eqord" => eqord::run(&args[2..]),
         "translate" => translate::run(&args[2..]),
+        "translate-mp" => translate_mp::run(&args[2..]),
         "policy" => policy::run(&args[2..]),
         "robust" => robust::run(&args[2..]),
         other => {
